@@ -9,7 +9,7 @@ Prints a JSON summary (used for seeded/<id>/meta.json)."""
 import json, os, shutil, subprocess, sys, tempfile, time
 
 def sh(cmd, **kw):
-    return subprocess.run(cmd, shell=True, capture_output=True, text=True, **kw)
+    return subprocess.run(cmd, shell=True, capture_output=True, text=True, errors="replace", **kw)
 
 def main():
     args = [a for a in sys.argv[1:] if a != "--checks-only"]
